@@ -75,7 +75,7 @@ theorem long1Width_fits (n : Int) : fitsTwos (long1Width n) n = true ∧ 0 < lon
   exact ⟨h1, by unfold long1Width; omega⟩
 
 section
-variable {mc : MCfg} {hook : Hook}
+variable {mc : MCfg} {hook : Hook} {σ : Type} {I : σ → DState → Prop}
 
 theorem ecfg_ge (p k : Nat) : ((ecfg p).proto ≥ (k : Int)) ↔ p ≥ k := by
   simp only [ecfg, ge_iff_le]; omega
@@ -101,12 +101,13 @@ theorem fits32_inInt64 {i : Int} (h : fits32 i = true) : inInt64 i = true := by
   constructor <;> omega
 
 /-- `save_long`. -/
-theorem pushesG_int (p : Nat) (i : Int) (b : Bytes) (h : cpInt p i = some b) : PushesG mc hook (ecfg p) b (.int i) := by
+theorem pushesG_int (hI : MemoOnly I) (s : σ) (p : Nat) (i : Int) (b : Bytes) (h : cpInt p i = some b) :
+    PushesG mc hook (ecfg p) I b (.int i) s s := by
   unfold cpInt at h
   by_cases hf : fits32 i = true
   · simp only [hf, if_true, Option.some.injEq] at h
     subst h
-    exact PushesG.of_pushes (pushes_int (mc := mc) (hook := hook) (c := ecfg p) i (fits32_inInt64 hf))
+    exact PushesG.of_pushes hI s (pushes_int (mc := mc) (hook := hook) (c := ecfg p) i (fits32_inInt64 hf))
       (fun r n hp hr => by simp only [RepG, hf, if_true]; exact hr)
   · simp only [hf, Bool.false_eq_true, if_false] at h
     by_cases h2 : p ≥ 2
@@ -115,23 +116,24 @@ theorem pushesG_int (p : Nat) (i : Int) (b : Bytes) (h : cpInt p i = some b) : P
       · simp only [hk, if_true, Option.some.injEq] at h
         subst h
         obtain ⟨hfit, hpos⟩ := long1Width_fits i
-        exact PushesG.of_pushes (pushes_long1 (mc := mc) (hook := hook) (c := ecfg p) _ i hpos hk hfit)
+        exact PushesG.of_pushes hI s (pushes_long1 (mc := mc) (hook := hook) (c := ecfg p) _ i hpos hk hfit)
           (fun r n hp hr => by simp only [RepG, hf, Bool.false_eq_true, if_false]; exact hr)
       · simp [hk] at h
     · simp only [h2, if_false, Option.some.injEq] at h
       subst h
-      exact PushesG.of_pushes (pushes_long (mc := mc) (hook := hook) (c := ecfg p) i)
+      exact PushesG.of_pushes hI s (pushes_long (mc := mc) (hook := hook) (c := ecfg p) i)
         (fun r n hp hr => by simp only [RepG, hf, Bool.false_eq_true, if_false]; exact hr)
 
 /-- `save_float`. -/
-theorem pushesG_float (p : Nat) (f : F64) (hok : p ≥ 1 ∨ PyFloatTextOK f) : PushesG mc hook (ecfg p) (cpFloat p f) (.float f) := by
+theorem pushesG_float (hI : MemoOnly I) (s : σ) (p : Nat) (f : F64) (hok : p ≥ 1 ∨ PyFloatTextOK f) :
+    PushesG mc hook (ecfg p) I (cpFloat p f) (.float f) s s := by
   unfold cpFloat
   by_cases hp : p ≥ 1
   · simp only [hp, if_true]
     have hp' : (ecfg p).proto ≥ 1 := (ecfg_ge p 1).mpr hp
     have := pushes_float (mc := mc) (hook := hook) (c := ecfg p) f (Or.inl hp')
     simp only [encodeFloat, hp', if_true, flat_emit] at this
-    exact PushesG.of_pushes this (fun r n hp hr => by simpa [RepG] using hr)
+    exact PushesG.of_pushes hI s this (fun r n hp hr => by simpa [RepG] using hr)
   · simp only [hp, if_false]
     obtain ⟨hparse, hlf⟩ := hok.resolve_left hp
     have hpar : Parses (70 :: pyFloatRepr f ++ [10]) [.pushFloat f] := by
@@ -140,12 +142,12 @@ theorem pushesG_float (p : Nat) (f : F64) (hok : p ≥ 1 ∨ PyFloatTextOK f) : 
       have e : (70 :: pyFloatRepr f ++ [10]) ++ t = 70 :: (pyFloatRepr f ++ 10 :: t) := by simp
       rw [e]
       simp only [parseInsn, Rd.bind, readByte, parseArg_70, Rd.mapE, readLine_line _ _ hlf, hparse, Rd.pure]
-    exact PushesG.of_pushes (P := fun r => r = .float f)
+    exact PushesG.of_pushes hI s (P := fun r => r = .float f)
       (Pushes.one (fun _ => .float f) hpar (fun _ _ => rfl) (fun _ => rfl)) (fun r n hp hr => by simpa [RepG] using hr)
 
 /-- `save_unicode` (before the memo). -/
-theorem pushesG_str (p : Nat) (s b : Bytes) (h : cpStr p s = some b) :
-    PushesG mc hook (ecfg p) b (.str s) := by
+theorem pushesG_str (hI : MemoOnly I) (s0 : σ) (p : Nat) (s b : Bytes) (h : cpStr p s = some b) :
+    PushesG mc hook (ecfg p) I b (.str s) s0 s0 := by
   unfold cpStr at h
   by_cases hp : p ≥ 1
   · simp only [hp, if_true] at h
@@ -153,7 +155,7 @@ theorem pushesG_str (p : Nat) (s b : Bytes) (h : cpStr p s = some b) :
     · simp only [hl, if_true, Option.some.injEq] at h
       subst h
       have hp' : (ecfg p).proto ≥ 1 := (ecfg_ge p 1).mpr hp
-      exact PushesG.of_pushes (pushes_unicode (mc := mc) (hook := hook) (c := ecfg p) s hl (encodeUnicode_err s hp'))
+      exact PushesG.of_pushes hI s0 (pushes_unicode (mc := mc) (hook := hook) (c := ecfg p) s hl (encodeUnicode_err s hp'))
         (fun r n hp hr => by simpa [RepG] using hr)
     · simp [hl] at h
   · simp only [hp, if_false] at h
@@ -170,11 +172,12 @@ theorem pushesG_str (p : Nat) (s b : Bytes) (h : cpStr p s = some b) :
         have e : (86 :: u ++ [10]) ++ t = 86 :: (u ++ 10 :: t) := by simp
         rw [e]
         simp only [parseInsn, Rd.bind, readByte, parseArg_86, Rd.mapE, readLine_line _ _ hlf, parseUnicodeArg, hinv, Rd.pure]
-      exact PushesG.of_pushes (P := fun r => r = .str s)
+      exact PushesG.of_pushes hI s0 (P := fun r => r = .str s)
         (Pushes.one (fun _ => .str s) hpar (fun _ _ => rfl) (fun _ => rfl)) (fun r n hp hr => by simpa [RepG] using hr)
 
 /-- `save_bytes`, protocol 3 and later (before the memo). -/
-theorem pushesG_bytes (p : Nat) (s b : Bytes) (h : cpBytes p s = some b) : PushesG mc hook (ecfg p) b (.bytes s) := by
+theorem pushesG_bytes (hI : MemoOnly I) (s0 : σ) (p : Nat) (s b : Bytes) (h : cpBytes p s = some b) :
+    PushesG mc hook (ecfg p) I b (.bytes s) s0 s0 := by
   unfold cpBytes at h
   by_cases hc : p ≥ 3 ∧ s.length < 2 ^ 32
   · simp only [hc, and_self, if_true, Option.some.injEq] at h
@@ -186,13 +189,13 @@ theorem pushesG_bytes (p : Nat) (s b : Bytes) (h : cpBytes p s = some b) : Pushe
       simp only [encodeBytes, hp', if_true]
       split <;> simp [flat, Out.seq, emit]
     rw [e] at hpar
-    exact PushesG.of_pushes (P := fun r => r = .bytes s)
+    exact PushesG.of_pushes hI s0 (P := fun r => r = .bytes s)
       (Pushes.one (fun _ => .bytes s) hpar (fun _ _ => rfl) (fun _ => rfl)) (fun r n hp hr => by simpa [RepG] using hr)
   · simp [hc] at h
 
 /-- `save_bytearray`, protocol 5 (before the memo). -/
-theorem pushesG_bytearray (p : Nat) (s b : Bytes) (hl : s.length < 2 ^ 32) (h : cpBytearray p s = some b) :
-    PushesG mc hook (ecfg p) b (.bytearray s) := by
+theorem pushesG_bytearray (hI : MemoOnly I) (s0 : σ) (p : Nat) (s b : Bytes) (hl : s.length < 2 ^ 32) (h : cpBytearray p s = some b) :
+    PushesG mc hook (ecfg p) I b (.bytearray s) s0 s0 := by
   unfold cpBytearray at h
   by_cases hc : p ≥ 5
   · simp only [hc, if_true, Option.some.injEq] at h
@@ -202,7 +205,7 @@ theorem pushesG_bytearray (p : Nat) (s b : Bytes) (hl : s.length < 2 ^ 32) (h : 
     have e : flat (encodeByteArray (fun _ => false) (ecfg p) s) = 0x96 :: le8 s.length ++ s := by
       simp [encodeByteArray, hp', flat, Out.seq, emit]
     rw [e] at hpar
-    exact PushesG.of_pushes (P := fun r => r = .bytearray s)
+    exact PushesG.of_pushes hI s0 (P := fun r => r = .bytearray s)
       (Pushes.one (fun _ => .bytearray s) hpar (fun _ _ => rfl) (fun _ => rfl)) (fun r n hp hr => by simpa [RepG] using hr)
   · simp [hc] at h
 
@@ -212,68 +215,71 @@ end
 /-! ### opening a container -/
 
 section
-variable {mc : MCfg} {hook : Hook} {c : ECfg}
+variable {mc : MCfg} {hook : Hook} {c : ECfg} {σ : Type} {I : σ → DState → Prop}
 
 theorem flatten_map_single : (l : List PyObj) → (l.map fun x => [x]).flatten = l
   | [] => rfl
   | x :: l => by simp [flatten_map_single l]
 
 /-- `]` (or `(l` at protocol 0): an empty list. -/
-theorem runs_openList (hlr : mc.listRef = false) (p : Nat) :
-    RunsP mc hook c (if p ≥ 1 then [93] else [40, 108]) (fun _ => True)
-      (fun st st' => st'.stack = .list [] :: st.stack ∧ st'.heap = st.heap) := by
+theorem runs_openList (hI : MemoOnly I) (hlr : mc.listRef = false) (p : Nat) (s : σ) :
+    RunsP mc hook c (if p ≥ 1 then [93] else [40, 108]) (I s)
+      (fun st st' => I s st' ∧ st'.stack = .list [] :: st.stack ∧ st'.heap = st.heap) := by
   split
   · refine RunsP.one (parses_op 93 .emptyList rfl parseArg_93) ?_
-    intro pos st _ _
-    exact ⟨push st (.list []), by simp [exec, mkList, hlr], rfl, rfl, rfl⟩
+    intro pos st _ hj
+    exact ⟨push st (.list []), by simp [exec, mkList, hlr], rfl, hI s st _ rfl hj, rfl, rfl⟩
   · have hp : Parses [40, 108] [.mark, .list] := by
       simpa using Parses.append (parses_op 40 .mark rfl parseArg_40) (parses_op 108 .list rfl parseArg_108)
-    refine ⟨[.mark, .list], hp, fun insn st _ _ => ?_⟩
-    refine ⟨{ st with stack := .list [] :: st.stack }, ?_, rfl, rfl, rfl⟩
+    refine ⟨[.mark, .list], hp, fun insn st _ hj => ?_⟩
+    refine ⟨{ st with stack := .list [] :: st.stack }, ?_, rfl, hI s st _ rfl hj, rfl, rfl⟩
     simp [runFrom, exec, push, splitAtMark, isMark, mkList, hlr]
 
 /-- `}` (or `(d` at protocol 0): a new empty dict in the heap. -/
-theorem runs_openDict (p : Nat) :
-    RunsP mc hook c (if p ≥ 1 then [125] else [40, 100]) (fun _ => True)
-      (fun st st' => st'.stack = .href st.heap.length :: st.stack ∧ st'.heap = st.heap ++ [{ kind := dictKind mc.cfg }]) := by
+theorem runs_openDict (hI : MemoOnly I) (p : Nat) (s : σ) :
+    RunsP mc hook c (if p ≥ 1 then [125] else [40, 100]) (I s)
+      (fun st st' => I s st' ∧ st'.stack = .href st.heap.length :: st.stack ∧ st'.heap = st.heap ++ [{ kind := dictKind mc.cfg }]) := by
   split
   · refine RunsP.one (parses_op 125 .emptyDict rfl parseArg_125) ?_
-    intro pos st _ _
-    exact ⟨push { st with heap := st.heap ++ [{ kind := dictKind mc.cfg }] } (.href st.heap.length), by simp [exec, allocObj], rfl, rfl, rfl⟩
+    intro pos st _ hj
+    exact ⟨push { st with heap := st.heap ++ [{ kind := dictKind mc.cfg }] } (.href st.heap.length), by simp [exec, allocObj], rfl,
+      hI s st _ rfl hj, rfl, rfl⟩
   · have hp : Parses [40, 100] [.mark, .dict] := by
       simpa using Parses.append (parses_op 40 .mark rfl parseArg_40) (parses_op 100 .dict rfl parseArg_100)
-    refine ⟨[.mark, .dict], hp, fun insn st _ _ => ?_⟩
-    refine ⟨{ st with heap := st.heap ++ [{ kind := dictKind mc.cfg }], stack := .href st.heap.length :: st.stack }, ?_, rfl, rfl, rfl⟩
+    refine ⟨[.mark, .dict], hp, fun insn st _ hj => ?_⟩
+    refine ⟨{ st with heap := st.heap ++ [{ kind := dictKind mc.cfg }], stack := .href st.heap.length :: st.stack }, ?_, rfl,
+      hI s st _ rfl hj, rfl, rfl⟩
     simp [runFrom, exec, push, splitAtMark, isMark, assignAll, allocObj]
 
 /-- A list: created empty, memoized, filled by the APPEND(S) groups. -/
-theorem pushesG_list (hlr : mc.listRef = false) (p n : Nat) (xs : List PyObj) (fs : List Bytes)
-    (hf : FragsGN mc hook c fs (xs.map fun x => [x])) :
-    PushesG mc hook c ((if p ≥ 1 then [93] else [40, 108]) ++ cpPut p n ++ cpBatchList p fs) (.list xs) := by
+theorem pushesG_list (hI : MemoOnly I) (hlr : mc.listRef = false) (p : Nat) (pb : Bytes) (xs : List PyObj) (fs : List Bytes)
+    {s s1 s' : σ} {vp : GoVal → Prop} (hput : PutOK mc hook c I pb vp s s1) (hvp : vp (.list []))
+    (hf : FragsGN mc hook c I fs (xs.map fun x => [x]) s1 s') :
+    PushesG mc hook c I ((if p ≥ 1 then [93] else [40, 108]) ++ pb ++ cpBatchList p fs) (.list xs) s s' := by
   have hlen : fs.length = xs.length := by simpa using hf.length
   obtain ⟨gs, e1, e2⟩ := batchList_groups p (fs.zip xs)
   rw [List.map_fst_zip (by omega)] at e1
   have hsnd : (fs.zip xs).map (·.2) = xs := List.map_snd_zip (by omega)
   have hfst : (fs.zip xs).map (·.1) = fs := List.map_fst_zip (by omega)
-  have hf' : FragsGN mc hook c ((grpItems gs).map (·.1)) ((grpItems gs).map fun x => [x.2]) := by
+  have hf' : FragsGN mc hook c I ((grpItems gs).map (·.1)) ((grpItems gs).map fun x => [x.2]) s1 s' := by
     rw [e2, hfst]
     have : ((fs.zip xs).map fun x => [x.2]) = xs.map fun x => [x] := by
       have := congrArg (List.map fun x => [x]) hsnd
       simpa [List.map_map, Function.comp_def] using this
     rw [this]; exact hf
-  have hg := runs_listGroups (mc := mc) (hook := hook) (c := c) gs hf'
+  have hg := runs_listGroups (mc := mc) (hook := hook) (c := c) hI gs hf'
   rw [e2, hsnd] at hg
   rw [e1]
-  refine RunsP.weaken (RunsP.seq (RunsP.seq (runs_openList hlr p) (runs_put p n) ?_) hg ?_) (fun _ h => h) ?_
-  · intro st st1 _ _ ⟨hs, _⟩
-    exact ⟨_, _, hs, rfl⟩
-  · intro st st2 _ _ ⟨st1, _, ⟨hs1, _⟩, hs2, _⟩
-    exact ⟨[], st.stack, by rw [hs2, hs1]⟩
-  · intro st st3 _ _ ⟨st2, _, ⟨st1, _, ⟨hs1, hh1⟩, hs2, hh2⟩, q⟩
+  refine RunsP.weaken (RunsP.seq (RunsP.seq (runs_openList hI hlr p s) hput ?_) hg ?_) (fun _ h => h) ?_
+  · intro st st1 _ _ ⟨hj, hs, _⟩
+    exact ⟨hj, _, _, hs, rfl, hvp⟩
+  · intro st st2 _ _ ⟨st1, _, ⟨_, hs1, _⟩, hj2, hs2, _⟩
+    exact ⟨hj2, [], st.stack, by rw [hs2, hs1]⟩
+  · intro st st3 _ _ ⟨st2, _, ⟨st1, _, ⟨_, hs1, hh1⟩, _, hs2, hh2⟩, hj3, q⟩
     have hs : st2.stack = .list [] :: st.stack := by rw [hs2, hs1]
     have hh : st2.heap = st.heap := by rw [hh2, hh1]
     obtain ⟨rs, hs3, hr, hk⟩ := q [] st.stack hs
-    refine ⟨.list rs, by simpa using hs3, ?_, ?_⟩
+    refine ⟨hj3, .list rs, by simpa using hs3, ?_, ?_⟩
     · simp only [RepG]
       exact ⟨rs, rfl, by rw [← hh]; exact hr⟩
     · unfold KeepsH at hk ⊢
@@ -281,36 +287,37 @@ theorem pushesG_list (hlr : mc.listRef = false) (p n : Nat) (xs : List PyObj) (f
       exact hk
 
 /-- A dict: created empty in the heap, memoized, filled in place by the SETITEM(S) groups. -/
-theorem pushesG_dict (p n : Nat) (kvs : List (PyObj × PyObj)) (fs : List Bytes)
-    (hf : FragsGN mc hook c fs (kvs.map fun kv => [kv.1, kv.2]))
+theorem pushesG_dict (hI : MemoOnly I) (p : Nat) (pb : Bytes) (kvs : List (PyObj × PyObj)) (fs : List Bytes)
+    {s s1 s' : σ} {vp : GoVal → Prop} (hput : PutOK mc hook c I pb vp s s1) (hvp : ∀ id, vp (.href id))
+    (hf : FragsGN mc hook c I fs (kvs.map fun kv => [kv.1, kv.2]) s1 s')
     (hkeys : keysOK mc.cfg false (goOfPairs kvs) = true) :
-    PushesG mc hook c ((if p ≥ 1 then [125] else [40, 100]) ++ cpPut p n ++ cpBatchDict p fs) (.dict kvs) := by
+    PushesG mc hook c I ((if p ≥ 1 then [125] else [40, 100]) ++ pb ++ cpBatchDict p fs) (.dict kvs) s s' := by
   have hlen : fs.length = kvs.length := by simpa using hf.length
   obtain ⟨gs, e1, e2⟩ := batchDict_groups p (fs.zip kvs)
   rw [List.map_fst_zip (by omega)] at e1
   have hsnd : (fs.zip kvs).map (·.2) = kvs := List.map_snd_zip (by omega)
   have hfst : (fs.zip kvs).map (·.1) = fs := List.map_fst_zip (by omega)
-  have hf' : FragsGN mc hook c ((grpItems gs).map (·.1)) ((grpItems gs).map fun x => [x.2.1, x.2.2]) := by
+  have hf' : FragsGN mc hook c I ((grpItems gs).map (·.1)) ((grpItems gs).map fun x => [x.2.1, x.2.2]) s1 s' := by
     rw [e2, hfst]
     have : ((fs.zip kvs).map fun x => [x.2.1, x.2.2]) = kvs.map fun kv => [kv.1, kv.2] := by
       have := congrArg (List.map fun (kv : PyObj × PyObj) => [kv.1, kv.2]) hsnd
       simpa [List.map_map, Function.comp_def] using this
     rw [this]; exact hf
-  have hg := runs_dictGroups (mc := mc) (hook := hook) (c := c) gs [] hf' (by rw [e2, hsnd]; simpa using hkeys)
+  have hg := runs_dictGroups (mc := mc) (hook := hook) (c := c) hI gs [] hf' (by rw [e2, hsnd]; simpa using hkeys)
   rw [e2, hsnd] at hg
   rw [e1]
-  refine RunsP.weaken (RunsP.seq (RunsP.seq (runs_openDict p) (runs_put p n) ?_) hg ?_) (fun _ h => h) ?_
-  · intro st st1 _ _ ⟨hs, _⟩
-    exact ⟨_, _, hs, rfl⟩
-  · intro st st2 _ _ ⟨st1, _, ⟨hs1, hh1⟩, hs2, hh2⟩
-    refine ⟨st.heap.length, st.stack, [], by rw [hs2, hs1], ?_, by simp [RepGPairs]⟩
+  refine RunsP.weaken (RunsP.seq (RunsP.seq (runs_openDict hI p s) hput ?_) hg ?_) (fun _ h => h) ?_
+  · intro st st1 _ _ ⟨hj, hs, _⟩
+    exact ⟨hj, _, _, hs, rfl, hvp _⟩
+  · intro st st2 _ _ ⟨st1, _, ⟨_, hs1, hh1⟩, hj2, hs2, hh2⟩
+    refine ⟨hj2, st.heap.length, st.stack, [], by rw [hs2, hs1], ?_, by simp [RepGPairs]⟩
     rw [hh2, hh1]; simp
-  · intro st st3 _ _ ⟨st2, _, ⟨st1, _, ⟨hs1, hh1⟩, hs2, hh2⟩, q⟩
+  · intro st st3 _ _ ⟨st2, _, ⟨st1, _, ⟨_, hs1, hh1⟩, _, hs2, hh2⟩, hj3, q⟩
     have hs : st2.stack = .href st.heap.length :: st.stack := by rw [hs2, hs1]
     have hh : st2.heap = st.heap ++ [{ kind := dictKind mc.cfg }] := by rw [hh2, hh1]
     obtain ⟨es1, hs3, hh3, hr, hl, ho⟩ := q st.heap.length st.stack [] hs (by rw [hh]; simp) (by simp [RepGPairs])
     have hl' : st.heap.length + 1 ≤ st3.heap.length := by rw [hh] at hl; simpa using hl
-    refine ⟨.href st.heap.length, hs3, ?_, ⟨by omega, ?_⟩⟩
+    refine ⟨hj3, .href st.heap.length, hs3, ?_, ⟨by omega, ?_⟩⟩
     · simp only [RepG]
       refine ⟨st.heap.length, es1, rfl, Nat.le_refl _, by simpa using hh3, ?_⟩
       exact RepGPairs.congr mc.cfg (AgreeFrom.refl _ _) (Nat.le_succ _) es1 kvs (by simpa using hr)
@@ -319,59 +326,65 @@ theorem pushesG_dict (p n : Nat) (kvs : List (PyObj × PyObj)) (fs : List Bytes)
 
 end
 
-/-! ### the induction -/
+/-! ### the induction (tree-shaped objects: nothing is fetched from the memo) -/
 
 section
 variable {mc : MCfg} {hook : Hook}
 
-theorem pushesG_of_eq {c : ECfg} {b b' : Bytes} {v : PyObj} (h : PushesG mc hook c b v) (e : b' = b) : PushesG mc hook c b' v := e ▸ h
+/-- The trivial memo invariant. -/
+abbrev ITriv : Unit → DState → Prop := fun _ _ => True
+
+theorem pushesG_of_eq {c : ECfg} {σ : Type} {I : σ → DState → Prop} {s s' : σ} {b b' : Bytes} {v : PyObj}
+    (h : PushesG mc hook c I b v s s') (e : b' = b) : PushesG mc hook c I b' v s s' := e ▸ h
 
 mutual
 /-- `save(obj)`: what is written, read by the decoder from any state, pushes one value representing the object. -/
 theorem pk_val (hlr : mc.listRef = false) (p : Nat) : (v : PyObj) → (n : Nat) → (b : Bytes) → (n' : Nat) →
-    pkOK mc.cfg p v → cpSave p v n = some (b, n') → PushesG mc hook (ecfg p) b v
+    pkOK mc.cfg p v → cpSave p v n = some (b, n') → PushesG mc hook (ecfg p) ITriv b v () ()
   | .none, n, b, n', _, hs => by
     simp only [cpSave, Option.some.injEq, Prod.mk.injEq] at hs
     obtain ⟨rfl, _⟩ := hs
     have := pushes_none (mc := mc) (hook := hook) (c := ecfg p)
     rw [flat_emit] at this
-    exact PushesG.of_pushes this (fun r n hp hr => by simpa [RepG] using hr)
+    exact PushesG.of_pushes MemoOnly.trivial () this (fun r n hp hr => by simpa [RepG] using hr)
   | .bool bv, n, b, n', _, hs => by
     simp only [cpSave, Option.some.injEq, Prod.mk.injEq] at hs
     obtain ⟨rfl, _⟩ := hs
-    exact PushesG.of_pushes (pushes_bool (mc := mc) (hook := hook) (c := ecfg p) bv) (fun r n hp hr => by simpa [RepG] using hr)
+    exact PushesG.of_pushes MemoOnly.trivial () (pushes_bool (mc := mc) (hook := hook) (c := ecfg p) bv)
+      (fun r n hp hr => by simpa [RepG] using hr)
   | .int i, n, b, n', _, hs => by
     cases hci : cpInt p i with
     | none => simp [cpSave, hci] at hs
     | some b0 =>
       simp only [cpSave, hci, Option.map_some, Option.some.injEq, Prod.mk.injEq] at hs
       obtain ⟨rfl, _⟩ := hs
-      exact pushesG_int p i b0 hci
+      exact pushesG_int MemoOnly.trivial () p i b0 hci
   | .float f, n, b, n', hok, hs => by
     simp only [cpSave, Option.some.injEq, Prod.mk.injEq] at hs
     obtain ⟨rfl, _⟩ := hs
-    exact pushesG_float p f (by simpa [pkOK] using hok)
+    exact pushesG_float MemoOnly.trivial () p f (by simpa [pkOK] using hok)
   | .str s, n, b, n', _, hs => by
     cases hcs : cpStr p s with
     | none => simp [cpSave, hcs] at hs
     | some b0 =>
       simp only [cpSave, hcs, Option.map_some, Option.some.injEq, Prod.mk.injEq] at hs
       obtain ⟨rfl, _⟩ := hs
-      exact (pushesG_str p s b0 hcs).put p n
+      exact (pushesG_str MemoOnly.trivial () p s b0 hcs).put (PutOK.trivial p n (fun _ => True)) (fun _ _ _ _ => trivial)
   | .bytes s, n, b, n', _, hs => by
     cases hcs : cpBytes p s with
     | none => simp [cpSave, hcs] at hs
     | some b0 =>
       simp only [cpSave, hcs, Option.map_some, Option.some.injEq, Prod.mk.injEq] at hs
       obtain ⟨rfl, _⟩ := hs
-      exact (pushesG_bytes p s b0 hcs).put p n
+      exact (pushesG_bytes MemoOnly.trivial () p s b0 hcs).put (PutOK.trivial p n (fun _ => True)) (fun _ _ _ _ => trivial)
   | .bytearray s, n, b, n', hok, hs => by
     cases hcs : cpBytearray p s with
     | none => simp [cpSave, hcs] at hs
     | some b0 =>
       simp only [cpSave, hcs, Option.map_some, Option.some.injEq, Prod.mk.injEq] at hs
       obtain ⟨rfl, _⟩ := hs
-      exact (pushesG_bytearray p s b0 (by simpa [pkOK] using hok) hcs).put p n
+      exact (pushesG_bytearray MemoOnly.trivial () p s b0 (by simpa [pkOK] using hok) hcs).put
+        (PutOK.trivial p n (fun _ => True)) (fun _ _ _ _ => trivial)
   | .tuple xs, n, b, n', hok, hs => by
     simp only [pkOK] at hok
     simp only [cpSave] at hs
@@ -381,11 +394,11 @@ theorem pk_val (hlr : mc.listRef = false) (p : Nat) : (v : PyObj) → (n : Nat) 
       simp only [List.isEmpty_nil, if_true, Option.some.injEq, Prod.mk.injEq] at hs
       obtain ⟨rfl, _⟩ := hs
       split
-      · refine PushesG.of_pushes (P := fun r => r = .tuple []) (Pushes.one (fun _ => .tuple [])
+      · refine PushesG.of_pushes MemoOnly.trivial () (P := fun r => r = .tuple []) (Pushes.one (fun _ => .tuple [])
           (parses_op 41 .emptyTuple rfl parseArg_41) (fun _ _ => rfl) (fun _ => rfl)) ?_
         intro r n hp hr
         simp only [RepG]; exact ⟨[], hr, by simp [RepGList]⟩
-      · exact pushesG_tupleMark [] [] PushesGN.nil
+      · exact pushesG_tupleMark MemoOnly.trivial [] [] (PushesGN.nil ())
     · simp only [hemp, Bool.false_eq_true, if_false] at hs
       cases hsl : cpSaveList p xs n with
       | none => simp [hsl] at hs
@@ -403,10 +416,10 @@ theorem pk_val (hlr : mc.listRef = false) (p : Nat) : (v : PyObj) → (n : Nat) 
         unfold cpTupleClose
         by_cases h23 : p ≥ 2 ∧ xs.length ≤ 3
         · simp only [h23, and_self, if_true, List.nil_append]
-          have := (pushesG_tupleN xs hne h23.2 fs.flatten hi).put p n1
+          have := (pushesG_tupleN MemoOnly.trivial xs hne h23.2 fs.flatten hi).put (PutOK.trivial p n1 (fun _ => True)) (fun _ _ _ _ => trivial)
           exact pushesG_of_eq this (by simp)
         · simp only [h23, if_false]
-          have := (pushesG_tupleMark xs fs.flatten hi).put p n1
+          have := (pushesG_tupleMark MemoOnly.trivial xs fs.flatten hi).put (PutOK.trivial p n1 (fun _ => True)) (fun _ _ _ _ => trivial)
           exact pushesG_of_eq this (by simp)
   | .list xs, n, b, n', hok, hs => by
     simp only [pkOK] at hok
@@ -417,7 +430,8 @@ theorem pk_val (hlr : mc.listRef = false) (p : Nat) : (v : PyObj) → (n : Nat) 
       obtain ⟨fs, n1⟩ := r
       simp only [hsl, Option.some.injEq, Prod.mk.injEq] at hs
       obtain ⟨rfl, _⟩ := hs
-      exact pushesG_list hlr p n xs fs (pk_list hlr p xs (n + 1) fs n1 hok hsl)
+      exact pushesG_list MemoOnly.trivial hlr p (cpPut p n) xs fs (PutOK.trivial p n (fun _ => True)) trivial
+        (pk_list hlr p xs (n + 1) fs n1 hok hsl)
   | .dict kvs, n, b, n', hok, hs => by
     simp only [pkOK] at hok
     simp only [cpSave] at hs
@@ -427,9 +441,10 @@ theorem pk_val (hlr : mc.listRef = false) (p : Nat) : (v : PyObj) → (n : Nat) 
       obtain ⟨fs, n1⟩ := r
       simp only [hsl, Option.some.injEq, Prod.mk.injEq] at hs
       obtain ⟨rfl, _⟩ := hs
-      exact pushesG_dict p n kvs fs (pk_pairs hlr p kvs (n + 1) fs n1 hok.1 hsl) hok.2
+      exact pushesG_dict MemoOnly.trivial p (cpPut p n) kvs fs (PutOK.trivial p n (fun _ => True)) (fun _ => trivial)
+        (pk_pairs hlr p kvs (n + 1) fs n1 hok.1 hsl) hok.2
 theorem pk_list (hlr : mc.listRef = false) (p : Nat) : (xs : List PyObj) → (n : Nat) → (fs : List Bytes) → (n' : Nat) →
-    pkOKList mc.cfg p xs → cpSaveList p xs n = some (fs, n') → FragsGN mc hook (ecfg p) fs (xs.map fun x => [x])
+    pkOKList mc.cfg p xs → cpSaveList p xs n = some (fs, n') → FragsGN mc hook (ecfg p) ITriv fs (xs.map fun x => [x]) () ()
   | [], n, fs, n', _, hs => by
     simp only [cpSaveList, Option.some.injEq, Prod.mk.injEq] at hs
     obtain ⟨rfl, _⟩ := hs
@@ -449,9 +464,9 @@ theorem pk_list (hlr : mc.listRef = false) (p : Nat) : (xs : List PyObj) → (n 
         simp only [h2, Option.some.injEq, Prod.mk.injEq] at hs
         obtain ⟨rfl, _⟩ := hs
         simp only [List.map_cons, FragsGN]
-        exact ⟨(pk_val hlr p x n b n1 hok.1 h1).toN, pk_list hlr p xs n1 fs2 n2 hok.2 h2⟩
+        exact ⟨(), (pk_val hlr p x n b n1 hok.1 h1).toN, pk_list hlr p xs n1 fs2 n2 hok.2 h2⟩
 theorem pk_pairs (hlr : mc.listRef = false) (p : Nat) : (kvs : List (PyObj × PyObj)) → (n : Nat) → (fs : List Bytes) → (n' : Nat) →
-    pkOKPairs mc.cfg p kvs → cpSavePairs p kvs n = some (fs, n') → FragsGN mc hook (ecfg p) fs (kvs.map fun kv => [kv.1, kv.2])
+    pkOKPairs mc.cfg p kvs → cpSavePairs p kvs n = some (fs, n') → FragsGN mc hook (ecfg p) ITriv fs (kvs.map fun kv => [kv.1, kv.2]) () ()
   | [], n, fs, n', _, hs => by
     simp only [cpSavePairs, Option.some.injEq, Prod.mk.injEq] at hs
     obtain ⟨rfl, _⟩ := hs
@@ -476,7 +491,7 @@ theorem pk_pairs (hlr : mc.listRef = false) (p : Nat) : (kvs : List (PyObj × Py
           simp only [h3, Option.some.injEq, Prod.mk.injEq] at hs
           obtain ⟨rfl, _⟩ := hs
           simp only [List.map_cons, FragsGN]
-          refine ⟨?_, pk_pairs hlr p kvs n2 fs3 n3 hok.2.2 h3⟩
+          refine ⟨(), ?_, pk_pairs hlr p kvs n2 fs3 n3 hok.2.2 h3⟩
           have := PushesGN.append (pk_val hlr p k n bk n1 hok.1 h1).toN (pk_val hlr p v n1 bv n2 hok.2.1 h2).toN
           simpa using this
 end
